@@ -1,3 +1,195 @@
 #[allow(unused_imports)] use vstd::arithmetic::{div_mod::*, power2::*, mul::*};
 #[allow(unused_imports)] use vstd::bits::*;
 #[allow(unused_imports)] use vstd::std_specs::bits::*;
+#[allow(unused_imports)] use vstd::std_specs::ops::*;
+#[allow(unused_imports)] use vstd::std_specs::cmp::*;
+
+verus! {
+// ---------------------------------------------------------------- SmoothBase (C17: stage-1 exponent blocks)
+
+#[verifier::external_type_specification]
+#[verifier::external_body]
+pub struct ExSmoothBase(SmoothBase);
+
+pub uninterp spec fn sb_factors(s: SmoothBase) -> Seq<u64>;
+pub uninterp spec fn sb_larges(s: SmoothBase) -> Seq<Uint>;
+
+/// product of a sequence of words
+pub open spec fn prod64(s: Seq<u64>) -> nat
+    decreases s.len()
+{
+    if s.len() == 0 { 1 } else { prod64(s.drop_last()) * (s.last() as nat) }
+}
+
+/// product of all exponent blocks
+pub open spec fn sb_total(s: SmoothBase) -> nat {
+    prod64(sb_factors(s)) * seq_prod(sb_larges(s))
+}
+
+/// the largest power of p reached from q by multiplying by p while staying below b
+pub open spec fn tp(p: nat, b: nat, q: nat) -> nat
+    decreases b - q
+    when p >= 2 && q >= 1
+    via tp_decreases
+{
+    if q * p < b { tp(p, b, q * p) } else { q }
+}
+
+#[via_fn]
+proof fn tp_decreases(p: nat, b: nat, q: nat) {
+    if q * p < b {
+        lemma_mul_le2(q as int, q as int, 2, p as int);
+    }
+}
+
+/// running product of everything accumulated so far (u64 blocks, large blocks, the two buffers)
+pub open spec fn tot4(f: Seq<u64>, l: Seq<Uint>, b: nat, bl: nat) -> nat {
+    prod64(f) * seq_prod(l) * b * bl
+}
+
+pub proof fn lemma_tot4_flush_small(f: Seq<u64>, l: Seq<Uint>, b: u64, bl: nat)
+    ensures tot4(f.push(b), l, 1, bl) == tot4(f, l, b as nat, bl)
+{
+    assert(f.push(b).drop_last() =~= f);
+    let a = prod64(f); let c = seq_prod(l); let x = b as nat;
+    assert((a * x) * c * 1 * bl == a * c * x * bl) by (nonlinear_arith);
+}
+
+pub proof fn lemma_tot4_flush_merge(f: Seq<u64>, l: Seq<Uint>, b: nat, bl: nat)
+    ensures tot4(f, l, 1, bl * b) == tot4(f, l, b, bl)
+{
+    let a = prod64(f); let c = seq_prod(l);
+    assert(a * c * 1 * (bl * b) == a * c * b * bl) by (nonlinear_arith);
+}
+
+pub proof fn lemma_tot4_flush_large(f: Seq<u64>, l: Seq<Uint>, b: nat, x: Uint)
+    ensures tot4(f, l.push(x), b, 1) == tot4(f, l, b, uv(x))
+{
+    lemma_seq_prod_push(l, x);
+    let a = prod64(f); let c = seq_prod(l); let y = uv(x);
+    assert(a * (c * y) * b * 1 == a * c * b * y) by (nonlinear_arith);
+}
+
+pub proof fn lemma_tot4_mul(f: Seq<u64>, l: Seq<Uint>, b: nat, bl: nat, k: nat)
+    ensures tot4(f, l, b * k, bl) == tot4(f, l, b, bl) * k
+{
+    let a = prod64(f); let c = seq_prod(l);
+    assert(a * c * (b * k) * bl == (a * c * b * bl) * k) by (nonlinear_arith);
+}
+
+/// a 64-bit buffer and a power that passed the `1 << leading_zeros` test multiply without overflow
+pub proof fn lemma_buffer_fits(buffer: u64, pow: u64)
+    requires buffer >= 1, (1u64 << (u64_leading_zeros(buffer) as u64)) > pow
+    ensures (buffer as nat) * (pow as nat) < 0x1_0000_0000_0000_0000
+{
+    axiom_u64_lz_arith(buffer);
+    let lz = u64_leading_zeros(buffer);
+    lemma2_to64();
+    lemma2_to64_rest();
+    assert(pow2(lz as nat) <= 0x8000_0000_0000_0000) by {
+        if lz < 63 { lemma_pow2_strictly_increases(lz as nat, 63); }
+    }
+    lemma_mul_one(pow2(lz as nat) as int);
+    vstd::bits::lemma_u64_shl_is_mul(1, lz as u64);
+    lemma_pow2_adds((64 - lz) as nat, lz as nat);
+    lemma_mul_lt(buffer as int, pow2((64 - lz) as nat) as int, pow as int, pow2(lz as nat) as int);
+}
+
+/// a 1024-bit block of at most 960 bits times a word fits
+pub proof fn lemma_large_fits(bl: nat, b: u64)
+    requires bitlen(bl) <= 960
+    ensures bl * (b as nat) < pow_w(16)
+{
+    lemma_bitlen_bound(bl, 960);
+    lemma_pow_w_is_pow2(16);
+    lemma2_to64();
+    lemma_pow2_adds(960, 64);
+    lemma_pow2_pos(960);
+    lemma_mul_lt(bl as int, pow2(960) as int, b as int, pow2(64) as int);
+}
+
+/// R4 outlining of the prime table of `SmoothBase::new` (`fbase::primes` below 65536, blocks of `PrimeSieve` above:
+/// a `loop` over `extend_from_slice` of borrowed blocks). Assumed contract: increasing, all >= 2. That the table
+/// contains EVERY prime below b1 is not part of this contract (undecided sub-claim of C17).
+#[verifier::external_body]
+fn ol_smooth_primes(b1: usize) -> (primes: Vec<u32>)
+    ensures
+        primes@ == smooth_primes_spec(b1),
+        forall|i: int| 0 <= i < primes@.len() ==> #[trigger] primes@[i] >= 2,
+        forall|i: int, j: int| 0 <= i <= j < primes@.len() ==> primes@[i] <= primes@[j],
+{
+    if b1 < 65_536 {
+        fbase::primes(b1 as u32 / 2)
+    } else {
+        let mut s = fbase::PrimeSieve::new();
+        let mut primes = vec![];
+        loop {
+            let b = s.next();
+            primes.extend_from_slice(b);
+            if b[b.len() - 1] > b1 as u32 {
+                break;
+            }
+        }
+        primes
+    }
+}
+
+#[verifier::external_body]
+fn ol_smooth_base(factors: Vec<u64>, factors_lg: Vec<Uint>) -> (r: SmoothBase)
+    ensures sb_factors(r) == factors@, sb_larges(r) == factors_lg@
+{
+    SmoothBase {
+        factors: factors.into_boxed_slice(),
+        larges: factors_lg.into_boxed_slice(),
+    }
+}
+
+#[verifier::external_body]
+fn ol_u1024_one() -> (r: U1024)
+    ensures uv(r) == 1
+{
+    U1024::ONE
+}
+
+#[verifier::external_body]
+fn ol_uint_one() -> (r: Uint)
+    ensures uv(r) == 1
+{
+    Uint::ONE
+}
+
+/// every prime of the table below b1 has its top power dividing the product of all blocks
+pub open spec fn smooth_ok(primes: Seq<u32>, b1: nat, total: nat, upto: int) -> bool {
+    forall|j: int| 0 <= j < upto && (primes[j] as nat) < b1 ==> dvd(#[trigger] tp(primes[j] as nat, b1, primes[j] as nat), total)
+}
+
+pub proof fn lemma_smooth_ok_mul(primes: Seq<u32>, b1: nat, total: nat, upto: int, k: nat)
+    requires smooth_ok(primes, b1, total, upto)
+    ensures smooth_ok(primes, b1, total * k, upto)
+{
+    assert forall|j: int| 0 <= j < upto && (primes[j] as nat) < b1 implies dvd(#[trigger] tp(primes[j] as nat, b1, primes[j] as nat), total * k) by {
+        lemma_dvd_mul_right(tp(primes[j] as nat, b1, primes[j] as nat), total, k);
+    }
+}
+} // verus!
+
+verus! {
+/// the table `ol_smooth_primes` returns (uninterpreted: what it contains is not decided here)
+pub uninterp spec fn smooth_primes_spec(b1: usize) -> Seq<u32>;
+
+/// multiplying a 1024-bit block by a word given as a fresh `Uint` (exec temporaries cannot be named in ghost code)
+pub proof fn lemma_uint_mul_word(a: Uint, b: u64)
+    requires uv(a) * (b as nat) < pow_w(16)
+    ensures
+        forall|x: Uint| uv(x) == b as nat ==> #[trigger] a.mul_req(x),
+        forall|x: Uint| uv(x) == b as nat ==> uv(#[trigger] a.mul_spec(x)) == uv(a) * (b as nat),
+        <Uint as vstd::std_specs::ops::MulSpec<Uint>>::obeys_mul_spec(),
+{
+    assert forall|x: Uint| uv(x) == b as nat implies #[trigger] a.mul_req(x) by { axiom_buint_mul(a, x); }
+    assert forall|x: Uint| uv(x) == b as nat implies uv(#[trigger] a.mul_spec(x)) == uv(a) * (b as nat) by {
+        axiom_buint_mul(a, x);
+        lemma_small_mod(uv(a) * uv(x), pow_w(16));
+    }
+    axiom_buint_mul(a, a);
+}
+} // verus!
